@@ -10,6 +10,7 @@ import (
 	"sync/atomic"
 	"time"
 
+	"github.com/formancehq/ledger/internal/verifhook"
 	vc "github.com/formancehq/ledger/internal/verif/vcommon"
 )
 
@@ -884,6 +885,16 @@ func genWrites(r *vc.Rand) *Scenario {
 	return sc
 }
 
+// handedCounter counts the requests that have passed the append.handed hook.
+type handedCounter struct{ n atomic.Int64 }
+
+func (h *handedCounter) Yield(ctx context.Context, point string) {
+	if point == "append.handed" {
+		h.n.Add(1)
+	}
+}
+func (h *handedCounter) Block(ctx context.Context, point string) {}
+
 // ------------------------------------------------------------------------------------------------ batch boundary
 // runBigBatch: more writes than the batcher's maximum batch size (4096) queue up while the first batch is held at the
 // persistence gate, so the pending queue is split at the boundary.
@@ -906,6 +917,8 @@ func runBigBatch(n int) (*ScenarioRun, int) {
 	og := &opGen{r: vc.NewRand(99)}
 	var started atomic.Int64
 	var wg sync.WaitGroup
+	handed := &handedCounter{}
+	bctx := verifhook.WithController(context.Background(), handed)
 	for k := 0; k < n; k++ {
 		var op Op
 		switch k % 3 {
@@ -921,14 +934,15 @@ func runBigBatch(n int) (*ScenarioRun, int) {
 			defer wg.Done()
 			rec := env.hist.call("big", g.n, op, env.step.Add(1))
 			started.Add(1)
-			res := execOp(context.Background(), g, op)
+			res := execOp(bctx, g, op)
 			env.hist.ret(rec, res, env.step.Add(1))
 		}()
 	}
-	for w := 0; w < 2000 && started.Load() < int64(n); w++ {
+	// the first batch is released once every request has handed its entry to the batcher (counted at the append.handed
+	// hook, not guessed from the clock); the 120 s bound only keeps a broken engine from blocking the run
+	for w := 0; w < 120000 && handed.n.Load() < int64(n); w++ {
 		time.Sleep(time.Millisecond)
 	}
-	time.Sleep(300 * time.Millisecond) // let the requests reach the batcher
 	close(release)
 	done := make(chan struct{})
 	go func() { wg.Wait(); close(done) }()
